@@ -36,6 +36,9 @@ func (r *elementByFoodReporter) Process(ln *shared.LogNode) error {
 					r.acc.Add(node.Header, repl.Value*e.Value)
 				}
 			}
+		} else if e.Name == singleElement {
+			// a food the database does not define stands for itself, as in the other reports
+			r.acc.Add(e.Name, e.Value)
 		}
 	}
 	return nil
